@@ -43,6 +43,8 @@ type HarnessCfg struct {
 	Replay      *ReplayCfg        `json:"replay"`
 	Note        string            `json:"note"`
 	PanicIgnore []string          `json:"panic_ignore"`
+	AssertFilter string           `json:"assert_filter"` // regexp: only assertion ids matching it are obligations of this harness
+	HarnessDir  string            `json:"harness_dir"`
 }
 
 type ReplayCfg struct {
@@ -202,6 +204,7 @@ func vsUFU64(name string, args ...uint64) uint64
 func vsUFBytes(name string, outLen int, args ...[]byte) []byte
 func vsLockHeld(p interface{}) bool
 func vsAnyLockHeld() bool
+func vsRunUntilBlocked(f func()) bool
 `
 
 func loadProgram(cfg *PropCfg, hdir string) (*ssa.Program, []*ssa.Package, map[string]*ssa.Package) {
@@ -213,6 +216,9 @@ func loadProgram(cfg *PropCfg, hdir string) (*ssa.Program, []*ssa.Package, map[s
 			pdir = strings.TrimPrefix(strings.TrimPrefix(u.Package, "massnet.org/mass"), "/")
 		}
 		abs := filepath.Join(repoDir, pdir)
+		if filepath.IsAbs(pdir) {
+			abs = pdir
+		}
 		pkgName := ""
 		for _, f := range u.Files {
 			src, err := os.ReadFile(filepath.Join(hdir, f))
@@ -233,7 +239,7 @@ func loadProgram(cfg *PropCfg, hdir string) (*ssa.Program, []*ssa.Package, map[s
 		Dir:        repoDir,
 		BuildFlags: []string{"-tags=verif"},
 		Overlay:    overlay,
-		Env:        append(os.Environ(), "GOFLAGS=-mod=mod", "GOPROXY=off", "GOSUMDB=off", "GOTOOLCHAIN=local", "CGO_ENABLED=1"),
+		Env:        append(os.Environ(), "GOFLAGS=-mod=mod", "GOPROXY=off", "GOSUMDB=off", "GOTOOLCHAIN=local", "CGO_ENABLED=1", "GODEBUG=goindex=0"),
 	}
 	pkgs, err := packages.Load(pcfg, patterns...)
 	if err != nil {
@@ -255,6 +261,13 @@ func loadProgram(cfg *PropCfg, hdir string) (*ssa.Program, []*ssa.Package, map[s
 	if bad {
 		fmt.Fprintln(os.Stderr, "HARNESS-COMPILE-ERROR: harness does not type-check against the current tree")
 		os.Exit(2)
+	}
+	if os.Getenv("VS_DEBUG_LOAD") != "" {
+		packages.Visit(pkgs, nil, func(p *packages.Package) {
+			if strings.Contains(p.PkgPath, "concurrent-map") {
+				fmt.Fprintln(os.Stderr, "pkg", p.PkgPath, p.GoFiles, p.CompiledGoFiles, p.Errors)
+			}
+		})
 	}
 	prog, spkgs := ssautil.AllPackages(pkgs, ssa.InstantiateGenerics)
 	prog.Build()
@@ -585,7 +598,14 @@ func (r *runner) discharge(h *HarnessCfg, res *HarnessResult, ex *Exec, solver *
 			res.Inconclusive = append(res.Inconclusive, fmt.Sprintf("%s %s {%s}: solver verdict %s (%.1fs) %s", kind, id, cas, verdict, qr.Seconds, firstLine(qr.Raw)))
 		}
 	}
+	var afilter *regexp.Regexp
+	if h.AssertFilter != "" {
+		afilter = regexp.MustCompile(h.AssertFilter)
+	}
 	for _, a := range ex.asserts {
+		if afilter != nil && !afilter.MatchString(a.ID) {
+			continue
+		}
 		r.mu.Lock()
 		res.Asserts++
 		res.distinctIDs[a.ID+"@"+a.Case] = true
@@ -640,7 +660,15 @@ func (r *runner) discharge(h *HarnessCfg, res *HarnessResult, ex *Exec, solver *
 		r.batchCheck(h, res, ex, solver, "panic", evs, check, timeout)
 	}
 	if h.CheckBlocks {
-		r.batchCheck(h, res, ex, solver, "block", ex.blocks, check, timeout)
+		// a thread that blocks while holding a lock is the violation (blocking-while-locked); parking without locks
+		// (the idle plotter) is normal
+		var evs []Event
+		for _, e := range ex.blocks {
+			if e.Msg != "" {
+				evs = append(evs, e)
+			}
+		}
+		r.batchCheck(h, res, ex, solver, "block", evs, check, timeout)
 	}
 }
 
